@@ -9,6 +9,13 @@ from .shrink import ddmin_batch
 ASSUMPTIONS = [
     'rows are opaque values: the model is polymorphic in the row type and is run at Z (row = its x value)',
     'iter(cursor) is modelled as a Python callable-iterator over fetchone with sentinel None',
+    'translator tie (C10_source_*): the PyMini interpreter (Model/PyMini.v) is the semantics of the translated methods; '
+    'in Cursor.execute the parser, compiler and executor (and isinstance) are opaque pure callables identified by their '
+    'qualified names in the generated refs table (the theorem is conditional on what their composition returns); '
+    'Column._vars holds operator.attrgetter objects, assumed to read the property of that name (getters_ok); '
+    'Column.__getitem__ is tied for integer keys (the slice branch subscripts a tuple with a slice object, outside the '
+    'fragment: covered by the correspondence only); Cursor.executemany calls self.execute, a state-changing call on the '
+    'receiver the fragment cannot express: covered by the correspondence only (C09 histories)',
 ]
 
 SIZES = [None, -2, -1, 0, 1, 2, 3, 5]
